@@ -72,6 +72,20 @@ class DeadPath(Exception):
     """the current path ends here (an obligation that it is unreachable / raises has been recorded)"""
 
 
+def split_goal(t, depth=0):
+    """conjuncts of a goal, distributing over implications: (a => (b and c)) -> [a => b, a => c]"""
+    if depth > 3:
+        return [t]
+    if t.op == "and":
+        out = []
+        for a in t.args:
+            out.extend(split_goal(a, depth + 1))
+        return out
+    if t.op == "=>":
+        return [Implies(t.args[0], g) for g in split_goal(t.args[1], depth + 1)]
+    return [t]
+
+
 def skolemize(t):
     """drop universal binders in positive positions (bound names are globally unique constants)"""
     if t.op == "#forall":
@@ -368,6 +382,15 @@ class Run(object):
         if goal.op == "#bool" and goal.val:
             return
         goal = skolemize(goal)
+        parts = split_goal(goal)
+        if len(parts) > 1:
+            # one obligation per conjunct: smaller, more stable queries
+            n = self.site(kind + label)
+            for i, g in enumerate(parts):
+                name = "%s#%s%s@%d.%s" % (self.qual, kind, (":" + label) if label else "", n, chr(ord("a") + i) if i < 26 else str(i))
+                self.obls.append(Obl(name, st.ctx(), g, kind, self.qual, node))
+            st.assume(Implies(And(*st.guards), goal) if st.guards else goal)
+            return
         n = self.site(kind + label)
         name = "%s#%s%s@%d" % (self.qual, kind, (":" + label) if label else "", n)
         self.obls.append(Obl(name, st.ctx(), goal, kind, self.qual, node))
